@@ -816,6 +816,12 @@ func runC10(c *Ctx, r *Rec) {
 	r.floor("D1-leaf-scannable", 1)
 
 	checkReceiverWrites(c, r, "D3-receiver-writes-persist", fr.n)
+	// what the formatter prints for a large queue or stack is read back: the reader does not fill a bounded collection past its capacity
+	for _, fd := range c.allFuncDecls("cdcn") {
+		if fd.Body != nil {
+			checkBoundedFill(c, r, "D2-any-size-read-back", c.info("cdcn"), fd, "")
+		}
+	}
 	checkConverterPairs(c, r, fr, st)
 	checkFormatterPurity(c, r, fr)
 	checkGuardedRecursion(c, r, info, fr.n, fr.ms, fr.depthF, fr.maxF, "D4-guarded-recursion")
